@@ -563,6 +563,10 @@ func TestVf_C08(t *testing.T) {
 		c++
 		vfC08WSVerbatim(run, vfkit.Seed()*100000+c)
 	}
+	for i := 0; i < vfkit.Pick(2, 10); i++ {
+		c++
+		vfC08SendWhileResuming(run, vfkit.Seed()*100000+c, i%2 == 0)
+	}
 	var wsw sync.WaitGroup
 	for _, code := range []int{1000, 1001, 1008, 1011} {
 		c++
@@ -815,4 +819,114 @@ func vfC08WSVerbatim(run *vfkit.Run, seed int64) {
 	}
 	run.Count("raw_byte_strings_verbatim_over_websocket", int64(len(raws)))
 	run.Nontrivial(fmt.Sprintf("ws-verbatim|%d", seed))
+}
+
+// vfC08SendWhileResuming: the application sends while Client.Resume() is under way (the server takes its time over
+// <resume/>). Whatever else happens to that stanza, a Send that returns nil has put it on the wire.
+func vfC08SendWhileResuming(run *vfkit.Run, seed int64, refuse bool) {
+	cs := map[string]interface{}{"mode": "client-tcp", "what": "Send during Resume", "resumption_refused": refuse, "seed": seed}
+	run.Case(cs)
+	atResume, sent := make(chan struct{}), make(chan struct{})
+	var second *vfPeerConn
+	var perr error
+	peer := vfNewPeer(func(pc *vfPeerConn) {
+		if pc.N == 0 {
+			if _, err := pc.Negotiate(&vfNeg{SM: true, ExpectEnable: true, SMResume: "true", SMID: "s-w-r", ExpectPresence: true, Bind: true}); err != nil {
+				perr = err
+			}
+			time.Sleep(20 * time.Millisecond)
+			pc.Close()
+			return
+		}
+		if pc.N > 1 {
+			return
+		}
+		second = pc
+		fail := func(err error) { perr = err; close(atResume) }
+		if _, err := pc.Expect("stream"); err != nil {
+			fail(err)
+			return
+		}
+		pc.Send(vfStreamHeader("jabber:client", "swr", "localhost") + "<stream:features><mechanisms xmlns='" + vfNSSASL + "'><mechanism>PLAIN</mechanism></mechanisms></stream:features>")
+		if _, err := pc.Expect("auth"); err != nil {
+			fail(err)
+			return
+		}
+		pc.Send("<success xmlns='" + vfNSSASL + "'/>")
+		pc.Restart()
+		if _, err := pc.Expect("stream"); err != nil {
+			fail(err)
+			return
+		}
+		pc.Send(vfStreamHeader("jabber:client", "swr2", "localhost") + "<stream:features><bind xmlns='" + vfNSBind + "'/><sm xmlns='" + vfNSSM + "'/></stream:features>")
+		e, err := pc.Expect("resume")
+		if err != nil {
+			fail(err)
+			return
+		}
+		close(atResume) // the client is inside Resume(), waiting for the answer
+		<-sent
+		pc.idle = 500 * time.Millisecond
+		if refuse {
+			pc.Send("<failed xmlns='" + vfNSSM + "'/>")
+		} else {
+			pc.Send(fmt.Sprintf("<resumed xmlns='%s' previd='%s' h='1'/>", vfNSSM, e.Attrs["previd"]))
+		}
+		for { // whatever follows (the stanza, a bind, <enable/> ...) is logged; answered just enough to let the client finish
+			e, err := pc.Next()
+			if err != nil {
+				return
+			}
+			switch {
+			case e.Is("", "iq") && e.Child("bind") != nil:
+				pc.Send(fmt.Sprintf("<iq type='result' id='%s'><bind xmlns='%s'><jid>test@localhost/x</jid></bind></iq>", e.Attrs["id"], vfNSBind))
+			case e.Is(vfNSSM, "enable"):
+				pc.Send("<enabled xmlns='" + vfNSSM + "' id='s-w-r-2' resume='true'/>")
+			}
+		}
+	})
+	defer peer.Stop()
+	c, obs, err := vfNewClient(vfClientOpt{Addr: peer.Addr(), Insecure: true, SM: true, SMResume: true}, NewRouter())
+	if err != nil {
+		run.Inconclusive("newclient")
+		return
+	}
+	if err := c.Connect(); err != nil {
+		run.Inconclusive("connect")
+		return
+	}
+	defer func() { go c.Disconnect() }()
+	if !vfWaitUntil(10*time.Second, func() bool { return obs.CountState(StateDisconnected) >= 1 }) {
+		run.Inconclusive("no-loss")
+		return
+	}
+	resumed := make(chan error, 1)
+	go func() { resumed <- c.Resume() }()
+	select {
+	case <-atResume:
+	case <-time.After(15 * time.Second):
+		close(sent)
+		run.Inconclusive("resume-not-reached")
+		return
+	}
+	if perr != nil {
+		close(sent)
+		run.Inconclusive("peer-script")
+		return
+	}
+	id := fmt.Sprintf("while-resuming-%d", seed)
+	serr := c.Send(stanza.Message{Attrs: stanza.Attrs{Id: id, To: "a@b"}, Body: "sent while the session is being resumed"})
+	close(sent)
+	select {
+	case <-resumed:
+	case <-time.After(15 * time.Second):
+	}
+	if serr == nil {
+		if !vfWaitUntil(5*time.Second, func() bool { return strings.Contains(second.ClearBytes(), id) }) {
+			run.Violation("C08/send-nil-but-not-on-wire:during-resume", fmt.Sprintf("Send returned nil while Client.Resume() was waiting for the server's answer (which was %v); the stanza never appeared on the connection", map[bool]string{true: "<failed/>", false: "<resumed/>"}[refuse]), cs)
+			return
+		}
+	}
+	run.Count("sends_during_resume_checked", 1)
+	run.Nontrivial(fmt.Sprintf("send-while-resuming|%d|%v", seed, refuse))
 }
